@@ -13,7 +13,9 @@ RULES = {
            "and sleeps between calls and inside the data-source factory (between the loader's critical sections); every answer "
            "compared with the single-threaded answer, all loads of one name compared for equality; built with "
            "-fsanitize=thread, reports counted from the log; the monitor adds no locking on these paths (thread-local logs, "
-           "relaxed atomics). (1a) cold start: fresh processes whose very first cctz calls (utc/fixed/local/default zone, a load) "
+           "relaxed atomics). (1c) hint hammer: 2-8 threads share ONE zone object, each staying in its own stretch of the transition "
+           "table, 60k-400k lookup(t)+lookup(cs) each in a tight loop (TSan and ASan builds), every answer compared with the "
+           "single-threaded one. (1a) cold start: fresh processes whose very first cctz calls (utc/fixed/local/default zone, a load) "
            "are made concurrently by 2-16 threads under TSan (function-local statics, lazily created map). (2) enumerated schedules: programs of 2-3 (thorough: 4) loader threads with overlapping names, "
            "parked at the load hook points (entry, cache miss, before the load lock, inside the factory, before insert) and "
            "stepped one at a time by a stateless DFS over all orders; non-trivial = distinct schedule string / stress round.",
